@@ -639,6 +639,40 @@ Fixpoint srv_after (errtext : Z -> bytes) (c : cfg) (sv : srv) (qs : list req) :
   | q :: r => srv_after errtext c (snd (serve_srv errtext c sv q)) r
   end.
 
+(* ---------- requests served WHILE another one is in flight ----------
+   A request holds its pooled objects from the Get at the start of gzip's / templates' ServeHTTP
+   to the deferred Put at their end: whatever the point at which it is interrupted - inside the
+   innermost handler, or later in its response path, when templates' WriteBuffered / ServeContent
+   or gzip's Close hand the header and the body to the connection - the requests served
+   completely in the meantime find the pools WITHOUT these objects, and get them back only
+   afterwards. [Nest q inner]: the requests [inner] (each possibly interrupted in turn) are
+   served one after the other while [q] is in flight. Responses in pre-order. *)
+Inductive nest := Nest (q : req) (inner : list nest).
+Definition uses_gz (c : cfg) (q : req) : bool := c_gzip c && q_ae q.
+Definition uses_buf (c : cfg) (q : req) : bool := match tmode_of c (q_path q) with TOff => false | _ => true end.
+Fixpoint run_nest (errtext : Z -> bytes) (c : cfg) (sv : srv) (t : nest) {struct t} : list st * srv :=
+  match t with
+  | Nest q inner =>
+      let g := pool_get (gz_pool sv) in
+      let b := pool_get (buf_pool sv) in
+      let x := serve_req_p (fst g, fst b) errtext c q in
+      (* the pools while q is in flight *)
+      let sv1 := {| gz_pool := if uses_gz c q then snd g else gz_pool sv;
+                    buf_pool := if uses_buf c q then snd b else buf_pool sv |} in
+      let r := (fix go (sv : srv) (l : list nest) {struct l} : list st * srv :=
+                  match l with
+                  | [] => ([], sv)
+                  | t' :: l' => let o1 := run_nest errtext c sv t' in
+                                let o2 := go (snd o1) l' in
+                                (fst o1 ++ fst o2, snd o2)
+                  end) sv1 inner in
+      (* the deferred Puts *)
+      (x :: fst r, {| gz_pool := if uses_gz c q then gz_pend x :: gz_pool (snd r) else gz_pool (snd r);
+                      buf_pool := if uses_buf c q then b_buf x :: buf_pool (snd r) else buf_pool (snd r) |})
+  end.
+Fixpoint nest_reqs (t : nest) : list req :=
+  match t with Nest q inner => q :: flat_map nest_reqs inner end.
+
 (* ---------- what the client sees ---------- *)
 Definition nonempty_seg (g : seg) : bool := match g with Raw [] => false | _ => true end.
 Fixpoint raws (l : list seg) : option bytes :=
@@ -923,6 +957,10 @@ Inductive case :=
 (* requests served one after the other by the same server (same or different connections,
    pipelined), each with the observation of the same request served alone *)
 | CSeq (c : cfg) (qs : list (req * obs * obs)) (all_ok : bool)
+(* a request interrupted at a gate (in its handler, or in its response path on the connection
+   side of every directive) while other requests of the same site are served completely; the
+   observations (nested run, solo run) in pre-order *)
+| CNest (c : cfg) (t : nest) (os : list (obs * obs)) (all_ok : bool)
 | CSkip.
 
 Definition texts_ok (texts : list (Z * bytes)) : bool :=
@@ -942,5 +980,18 @@ Definition judge (k : case) : N :=
       let agree := forallb (fun p => obs_eqb (fst p) (snd (fst (snd p)))) (combine ms qs) in
       (* every response equals the response to the same request served alone *)
       verdict agree (all_ok && forallb (fun t => obs_eqb (snd (fst t)) (snd t)) qs)
+  | CNest c t os all_ok =>
+      let et := std_errtext in
+      let ms := map observe (fst (run_nest et c srv0 t)) in
+      let agree := Nat.eqb (length ms) (length os) &&
+                   forallb (fun p => obs_eqb (fst p) (fst (snd p))) (combine ms os) in
+      (* "if a handler wrote a response, the client receives that status and body unaltered": every
+         response of the interleaved run - status, BODY BYTES, header observables - equals the
+         response to the same request served alone, and that one is what the request's own
+         handler produced *)
+      let solo_ok := Nat.eqb (length os) (length (nest_reqs t)) &&
+                     forallb (fun p => obs_eqb (snd (snd p)) (observe (serve_req et c (fst p))))
+                             (combine (nest_reqs t) os) in
+      verdict (agree && solo_ok) (all_ok && forallb (fun p => obs_eqb (fst p) (snd p)) os)
   | CSkip => 0%N
   end.
